@@ -12,7 +12,7 @@ Open Scope Z_scope.
 Definition is_gauge (o : out) : bool := match o with OGauge _ => true | _ => false end.
 Definition is_log (o : out) : bool := match o with OLog => true | _ => false end.
 Definition is_destroy (o : out) : bool := match o with ODestroy => true | _ => false end.
-Definition is_down_out (o : out) : bool := match o with ODownHdr _ _ _ | ODownData _ | ODownTrl | ODownReset => true | _ => false end.
+Definition is_down_out (o : out) : bool := match o with ODownHdr _ _ _ | ODownData _ _ | ODownTrl | ODownReset => true | _ => false end.
 Definition count (p : out -> bool) (l : list out) : nat := length (filter p l).
 Definition count_gauge := count is_gauge.
 Definition count_log := count is_log.
@@ -135,7 +135,7 @@ Proof.
   split; intros H; [congruence|]. right. split; auto.
 Qed.
 
-Lemma ok_hijack code body : okA (hijack code body). Proof. unfold hijack. ok_auto. Qed.
+Lemma ok_hijack code body : okA (hijack src code body). Proof. unfold hijack. ok_auto. Qed.
 Lemma ok_direct_response code : okA (direct_response code). Proof. unfold direct_response. ok_auto. Qed.
 Lemma ok_on_up_reset why : okA (on_up_reset why). Proof. unfold on_up_reset. ok_auto. Qed.
 Lemma ok_on_down_reset why : okA (on_down_reset why). Proof. unfold on_down_reset. ok_auto. Qed.
@@ -166,7 +166,7 @@ Lemma ok_on_upstream_reset why : okA (on_upstream_reset src c why).
 Proof.
   intros s. unfold on_upstream_reset.
   assert (Htail : okA (clean_up src c ;; ite resp_started (ds_reset_stream c)
-                         (upd (fun s0 => s0 <| up_reset := false |>) ;; hijack (reason_code src why) false))).
+                         (upd (fun s0 => s0 <| up_reset := false |>) ;; hijack src (reason_code src why) false))).
   { pose proof ok_clean_up. pose proof ok_ds_reset_stream. pose proof (ok_hijack (reason_code src why) false). ok_auto. }
   destruct (negb (reason_eqb why RsGlobalTimeout) && negb (resp_started s) && match retry s with Some _ => true | None => false end).
   - pose proof (ok_rs_retry None why s) as H0. destruct (rs_retry src c None why s) as [[s1 o1] r]. cbn [fst snd] in H0.
@@ -271,9 +271,15 @@ Proof.
   intros s.
   set (v := verdict_at (sf_verdicts f) (nth i (scalls s) 0%nat)).
   assert (H1 : okA (upd (fun s0 => s0 <| scalls := incr_nth (scalls s0) i |>) ;; emit (OFilterSend i v) ;;
-                    match v with VTerm => clean_stream src c | _ => ret end)).
-  { pose proof ok_clean_stream. destruct v; ok_auto. }
-  specialize (H1 s). destruct ((upd _ ;; emit (OFilterSend i v) ;; match v with VTerm => clean_stream src c | _ => ret end) s) as [s1 o1].
+                    match v with
+                    | VTerm => clean_stream src c
+                    | VHijack => hijack src (sf_code f) false
+                    | VDirect => direct_response (sf_code f)
+                    | _ => ret
+                    end)).
+  { pose proof ok_clean_stream. pose proof (ok_hijack (sf_code f) false). pose proof (ok_direct_response (sf_code f)). destruct v; ok_auto. }
+  specialize (H1 s).
+  match goal with |- context [let '(s1, o1) := ?t s in _] => destruct (t s) as [s1 o1] end.
   cbn [fst snd] in H1.
   destruct v; cbn [fst snd];
     try (eapply R_trans with (o2 := []) in H1; [rewrite app_nil_r in H1; exact H1|]; apply R_of_eq; reflexivity).
@@ -315,7 +321,7 @@ Proof.
   - apply ok_hijack.
   - apply H.
   - destruct (c_nhosts c =? 0)%nat.
-    + assert (H1 : okA (emit OChoose ;; hijack 502 false)) by ok_auto. apply H1.
+    + assert (H1 : okA (emit OChoose ;; hijack src 502 false)) by ok_auto. apply H1.
     + assert (H1 : okA (emit OChoose ;; upd (fun s0 => s0 <| retry := Some (budget src c) |> <| reserved := false |> <| has_upreq := true |>))) by ok_auto.
       apply H1.
 Qed.
@@ -340,7 +346,7 @@ Lemma ok_recv_finished : okA (recv_finished src c).
 Proof. unfold recv_finished. pose proof ok_upreq_reset_stream. pose proof ok_clean_up. ok_auto. Qed.
 Lemma ok_down_append_headers e r : okA (down_append_headers src c e r).
 Proof. unfold down_append_headers, end_stream. pose proof ok_clean_stream. ok_auto. Qed.
-Lemma ok_down_append_data e : okA (down_append_data src c e).
+Lemma ok_down_append_data e w : okA (down_append_data src c e w).
 Proof. unfold down_append_data, end_stream. pose proof ok_clean_stream. ok_auto. Qed.
 Lemma ok_down_append_trailers : okA (down_append_trailers src c).
 Proof. unfold down_append_trailers, end_stream. pose proof ok_clean_stream. ok_auto. Qed.
@@ -407,7 +413,7 @@ Proof.
     apply ok_fin. apply ok_upreq_guard. apply ok_on_upstream_headers.
   - destruct (rsp s') as [r|]; [|cbn [fst snd]; apply R_of_eq; reflexivity].
     destruct (r_data r); [|cbn [fst snd]; apply R_of_eq; reflexivity].
-    apply ok_fin. apply ok_upreq_guard. pose proof ok_recv_finished. pose proof (ok_down_append_data (negb (r_trailers r))). ok_auto.
+    apply ok_fin. apply ok_upreq_guard. pose proof ok_recv_finished. pose proof (ok_down_append_data (negb (r_trailers r)) (r_body r)). ok_auto.
   - destruct (rsp s') as [r|]; [|cbn [fst snd]; apply R_of_eq; reflexivity].
     destruct (r_trailers r); [|cbn [fst snd]; apply R_of_eq; reflexivity].
     apply ok_fin. apply ok_upreq_guard. pose proof ok_recv_finished. pose proof ok_down_append_trailers. ok_auto.
@@ -504,7 +510,7 @@ Proof. intros. apply env_no_down_gen. Qed.
 Theorem reset_reason_code : forall src c why s,
   resp_started s = false -> (why = RsGlobalTimeout \/ retry s = None) ->
   let '(s', _) := on_upstream_reset src c why s in
-  rsp s' = Some {| r_kind := KHijack; r_code := reason_code src why; r_data := false; r_trailers := false |} /\ direct s' = true.
+  (exists d o, rsp s' = Some {| r_kind := KHijack; r_code := reason_code src why; r_data := d; r_trailers := false; r_body := o |}) /\ direct s' = true.
 Proof.
   intros src c why s Hs Hw. unfold on_upstream_reset.
   assert (E : negb (reason_eqb why RsGlobalTimeout) && negb (resp_started s) && match retry s with Some _ => true | None => false end = false).
@@ -515,7 +521,7 @@ Proof.
     unfold rs_reset. destruct (reset_guarded src).
     - unfold when. destruct (reserved s); cbn [fst snd]; auto. unfold aseq, res_dec, upd. destruct (c_max_retries c =? 0); cbn; auto.
     - unfold res_dec. destruct (c_max_retries c =? 0); cbn; auto. }
-  destruct (clean_up src c s) as [s1 o1]. cbn [fst] in Hc. unfold ite. rewrite Hc. cbn. auto.
+  destruct (clean_up src c s) as [s1 o1]. cbn [fst] in Hc. unfold ite. rewrite Hc. cbn. split; auto. eexists; eexists; reflexivity.
 Qed.
 
 (* doRetryCheck *)
